@@ -33,6 +33,10 @@ def gen_cases(ctx):
         for _ in range(6):
             cases.append(([rng.choice([0x100, 0x3A9, 0xFFFF, 0x10FFFF, rng.randrange(0x110000)]) if rng.random() < .5
                            else rng.randrange(256) for _ in range(n)], rng.choice(seeds), "nonbyte"))
+    # lone surrogates (what os.fsdecode() makes of undecodable bytes) are code points like any other: no encoding step may stumble over them
+    for d_ in ([0xDC80], [99, 97, 102, 0xDCE9], [0xD800, 0xDC00], [0xDFFF] * 5, [65, 0xD800, 66, 67, 0xDBFF, 68, 69, 70, 71], [0x10000, 0xDC00, 0x1F600]):
+        for s_ in (0, 2 ** 32 - 1):
+            cases.append((list(d_), s_, "nonbyte"))
     if ctx.thorough:
         for _ in range(3000):
             n = rng.randrange(0, 300)
